@@ -44,7 +44,7 @@ func Name(t *rapid.T, label string) string {
 var quantifiers = []string{"?", "*", "+", "{0,2}", "{1,2}", "{0}", "*?", "??"}
 
 func regexAtom(t *rapid.T, depth int) string {
-	k := rapid.IntRange(0, 11).Draw(t, "atom")
+	k := rapid.IntRange(0, 12).Draw(t, "atom")
 	switch k {
 	case 0, 1, 2, 3:
 		return regexp.QuoteMeta(Frag(t, "lit"))
@@ -69,6 +69,9 @@ func regexAtom(t *rapid.T, depth int) string {
 		return open + strings.Join(alts, "|") + ")"
 	case 10:
 		return rapid.SampledFrom([]string{"^", "$", `\b`}).Draw(t, "midanchor")
+	case 12:
+		// characters RE2 takes literally because they do not form a repetition or class: a bare brace, an unfinished count
+		return rapid.SampledFrom([]string{"{", "}", "{,", "{1", "{,2}", "{a}", "]", "{1,"}).Draw(t, "litmeta")
 	default:
 		// a single literal character (so that quantifiers bind to it visibly)
 		f := Frag(t, "lit1")
@@ -123,6 +126,27 @@ func Regex(t *rapid.T, label string) string {
 			return "^" + regexp.QuoteMeta(Frag(t, "fallback"))
 		}
 	}
+}
+
+var soupTokens = []string{"^", "$", "foo", "a", "stats", "x", `\.`, ".", "*", "+", "?", "{", "}", "{2}", "{0,1}", "{,", "{1", "{1,", "{2,1}", "{99999}",
+	"(", ")", "(?", "(?i)", "(?:", "(?P<n>", "[", "]", "[^", "[a-", "[[:alpha:]]", "|", `\`, `\d`, `\Q`, `\E`, `\p{`, `\pL`, `\x`, `\1`, `\b`, "-", "_", "\xff"}
+
+// RegexSoup draws a short string over regex metacharacters and literals with no grammar at all; it may or may
+// not compile.  It stands for what an operator can type into a regex option (no whitespace, no quotes).  Shape:
+// optional '^', 0-2 literal tokens, then 1-3 arbitrary tokens (so that anchored literal prefixes followed by an odd
+// tail -- the input of every prefix optimisation -- are frequent).
+func RegexSoup(t *rapid.T, label string) string {
+	var sb strings.Builder
+	if rapid.IntRange(0, 9).Draw(t, label+".caret") < 6 {
+		sb.WriteString("^")
+	}
+	for i, n := 0, rapid.IntRange(0, 2).Draw(t, label+".nlit"); i < n; i++ {
+		sb.WriteString(rapid.SampledFrom([]string{"foo", "a", "stats", "x", `\.`, "-", "_", "1"}).Draw(t, label+".lit"))
+	}
+	for i, n := 0, rapid.IntRange(1, 3).Draw(t, label+".n"); i < n; i++ {
+		sb.WriteString(rapid.SampledFrom(soupTokens).Draw(t, label+".tok"))
+	}
+	return sb.String()
 }
 
 const nameAlphabet = "abcxofr0125._-"
